@@ -956,6 +956,30 @@ func extractCloseProto(repo, root string) error {
 	rd := p.flatten(p.fns[fnKey{"reader", "read"}], 0)
 	add("fetcherReadHasDeadline", "(*reader).read: conn.SetReadDeadline(…) before ReadBatchWith", before(firstIdx(rd, callAtom(false, "SetReadDeadline")), firstIdx(rd, func(a atom) bool { return hasCall(a.node, false, "ReadBatchWith") })))
 
+	// every request method of timeoutCoordinator arms the connection deadline before it delegates to the connection
+	nCoord, coordOK := 0, true
+	for k, d := range p.fns {
+		if k.recv != "timeoutCoordinator" || k.name == "Close" || d.Body == nil {
+			continue
+		}
+		nCoord++
+		as := p.flatten(d, 0)
+		iDl := firstIdx(as, func(a atom) bool { return hasCall(a.node, false, "SetDeadline") })
+		iReq := firstIdx(as, func(a atom) bool {
+			r, ok := a.node.(*ast.ReturnStmt)
+			return ok && (hasCall(r, false, k.name) || hasCall(r, false, strings.ToUpper(k.name[:1])+k.name[1:]))
+		})
+		if !before(iDl, iReq) {
+			coordOK = false
+		}
+	}
+	add("coordinatorCallsHaveDeadline", "timeoutCoordinator: every request method (findCoordinator, joinGroup, syncGroup, leaveGroup, heartbeat, offsetFetch, offsetCommit, readPartitions) calls conn.SetDeadline before it delegates to the connection", coordOK && nCoord >= 8)
+
+	pr := p.flatten(p.fns[fnKey{"Writer", "produce"}], 0)
+	add("produceRunsUnderWriteTimeout", "(*Writer).produce: the request context comes from context.WithTimeout(…, w.writeTimeout()) (or WithDeadline) before client.Produce",
+		before(firstIdx(pr, func(a atom) bool { return hasCall(a.node, false, "WithTimeout") || hasCall(a.node, false, "WithDeadline") }),
+			firstIdx(pr, func(a atom) bool { return hasCall(a.node, false, "Produce") })))
+
 	// ---- emit
 	sort.SliceStable(facts, func(i, j int) bool { return false })
 	var b strings.Builder
